@@ -87,7 +87,18 @@ fn select_max_index<T, Cmp: Fn(&T, &T) -> std::cmp::Ordering>(
         iter: impl Iterator<Item = &'a T>,
         compare: impl Fn(&'a T, &'a T) -> std::cmp::Ordering,
     ) -> usize {
-        let (index, _) = iter.enumerate().max_by(|a, b| compare(a.1, b.1)).unwrap(); // Ok because we checked tensor is not empty.
+        // Select the first of several equal maxima, as required when
+        // `select_last_index` is 0. `Iterator::max_by` returns the last.
+        let (index, _) = iter
+            .enumerate()
+            .reduce(|max, x| {
+                if compare(max.1, x.1) == std::cmp::Ordering::Less {
+                    x
+                } else {
+                    max
+                }
+            })
+            .unwrap(); // Ok because we checked tensor is not empty.
         index
     }
 
